@@ -514,6 +514,7 @@ type FuncSpec struct {
 	Name     string // ssa RelString relative to its package, e.g. (*PipelineRunner).startJob
 	Pkg      string
 	Requires []*Clause
+	Assumes  []*Clause // assumed at entry, NOT checked at call sites: listed assumption (stable facts about entry points)
 	Ensures  []*Clause
 	Modifies []ModItem
 	ModAll   bool // no modifies clause given: everything may change
@@ -579,7 +580,7 @@ type MonitorSpec struct {
 func pkgKey(pkg, name string) string { return pkg + "::" + name }
 
 var clauseKeywords = map[string]bool{
-	"func": true, "requires": true, "ensures": true, "modifies": true, "loop": true,
+	"func": true, "requires": true, "ensures": true, "assumes": true, "modifies": true, "loop": true,
 	"pure": true, "property": true, "ghost": true, "lemma": true, "lockmode": true,
 	"at": true, "trusted": true, "safety": true, "end": true, "lpre": true, "lpost": true,
 	"allowread": true, "monitor": true, "lockdomain": true, "immutable": true, "unguarded": true, "guardedmap": true, "guardedmem": true,
@@ -677,7 +678,7 @@ func (c *Contracts) parseFile(path, pkg string) error {
 		case "end":
 			cur = nil
 			curLemma = nil
-		case "requires", "ensures":
+		case "requires", "ensures", "assumes":
 			if cur == nil {
 				return fmt.Errorf("%s: %s outside func", where, kw)
 			}
@@ -685,9 +686,13 @@ func (c *Contracts) parseFile(path, pkg string) error {
 			if err != nil {
 				return err
 			}
-			if kw == "requires" {
+			switch kw {
+			case "requires":
 				cur.Requires = append(cur.Requires, cl)
-			} else {
+			case "assumes":
+				cur.Assumes = append(cur.Assumes, cl)
+				c.Trusted = append(c.Trusted, where+": assumed at entry of "+cur.Name+" ["+cl.Label+"]: "+cl.Src)
+			default:
 				cur.Ensures = append(cur.Ensures, cl)
 			}
 		case "lpre", "lpost":
